@@ -33,6 +33,14 @@ package commitlog
 // fed one replicated set spanning three epochs before its final reopen, whose
 // epoch history is checked again.
 //
+// belowhw mode (unit `belowhw`, c05_belowhw_test.go, family "below"): the
+// workloads the base list excludes - truncations AT OR BELOW the high
+// watermark, with an HW checkpoint (a tick, or the Close of a clean restart,
+// op R) before them, the log regrown past the old HW afterwards; one more crash
+// instant between every two operations.  The HW clause of the oracle compares
+// the recovered HW with the HW the log held IN MEMORY at the crash instant
+// (c05Exec.memHW, sampled at the hook hit), in every unit.
+//
 // The oracle (c05CheckRecovered) is shared by all units.  Its epoch
 // clause goes both ways: every message's epoch is known to the recovered
 // history (c05EpochConsistent) AND every claim of the history is borne out by
@@ -63,7 +71,7 @@ import (
 // ---------------------------------------------------------------- plan
 
 type c05Op struct {
-	Kind string // A append, M AppendMessageSet, S explicit split check, T truncate, H set HW, K checkpoint HW, E new leader epoch, C clean
+	Kind string // A append, M AppendMessageSet, S explicit split check, T truncate, H set HW, K checkpoint HW, E new leader epoch, C clean, R clean restart (Close + reopen, which also checkpoints the HW)
 	N    int    // A/M: batch size
 	Frac int    // T/H: position in permille of the current offset range
 	Bump bool   // A/M: messages carry a new leader epoch
@@ -71,6 +79,10 @@ type c05Op struct {
 	// segment; "epochstart" = exactly the first offset of the latest leader
 	// epoch that has messages; "last" = exactly the newest offset.  A class
 	// that is not available above the HW falls back to Frac.
+	// Position classes AT OR BELOW the high watermark (c05_belowhw_test.go,
+	// c05BelowTarget): "hw", "hw-1", "hw+1", "below" (Frac between the oldest
+	// offset and the HW), "belowsegbase" (a segment base <= HW), "belowepoch"
+	// (first offset of a leader epoch <= HW), "oldest", "zero".
 	Mode string
 	// M: message indexes (0 <= i < N) at which the leader epoch goes up by one
 	// BEFORE that message: a replicated set that spans leader-epoch boundaries
@@ -117,7 +129,8 @@ type c05Plan struct {
 	RetBytes int64
 	Ops      []c05Op
 	// Family: "" = base workload list; "inter" = workloads of unit interleave
-	// (cleaner passes with interleaved operations, catch-up streams).
+	// (cleaner passes with interleaved operations, catch-up streams); "below" =
+	// workloads of unit belowhw (truncations at or below the high watermark).
 	Family string
 }
 
@@ -278,6 +291,12 @@ type c05Image struct {
 	Elected map[uint64]bool
 	// Suspect: see c05Exec.suspect.
 	Suspect map[uint64]bool
+	// EndAlt: values of NewestOffset() beyond the last readable message that the
+	// LIVE log itself reported around this instant (c05Exec.endSlack): after a
+	// truncation whose target lies in a gap of a compacted log - possible only at
+	// or below the HW - the segment that held the target stays, empty, with its
+	// base offset, so the log goes on numbering from that base.
+	EndAlt []int64
 }
 
 type c05Exec struct {
@@ -347,6 +366,28 @@ type c05Exec struct {
 	images     []*c05Image
 	copyErr    error
 	seekCopy   bool
+	// idleEvery: one more crash instant between every two operations (family
+	// "below": the crash after a truncation and before the next HW checkpoint)
+	idleEvery bool
+	// lastCkpt: which operation last wrote the HW checkpoint file ("" none yet,
+	// "K" a tick of the checkpoint loop, "R" Close)
+	lastCkpt string
+	// endSlack: the live log's NewestOffset() when it lies beyond the newest
+	// message of the model (-1: it does not), sampled between operations; see
+	// c05Image.EndAlt
+	endSlack int64
+}
+
+// sampleSlack is called between operations (never from a hook).
+func (e *c05Exec) sampleSlack() {
+	e.endSlack = -1
+	if e.log == nil || len(e.model) == 0 {
+		return
+	}
+	if n := e.log.NewestOffset(); n > e.model[len(e.model)-1].Off {
+		e.endSlack = n
+		e.stat("log-end-beyond-newest-message-after-truncation-into-a-gap")
+	}
 }
 
 func (e *c05Exec) onPoint(name string, args ...interface{}) error {
@@ -365,6 +406,19 @@ func (e *c05Exec) onPoint(name string, args ...interface{}) error {
 	return nil
 }
 
+// memHW is the high watermark the log holds IN MEMORY right now - the "high
+// watermark before the crash" of an image taken at this instant.  It is read
+// without the log mutex: hook points may be inside it, and in the snapshot /
+// kill / reference executions every writer of the field runs on the workload's
+// own goroutine (the background loops only read it).  During a restart (op R)
+// it is the value the closed log held.
+func (e *c05Exec) memHW() int64 {
+	if e.log == nil {
+		return e.hw
+	}
+	return e.log.hw
+}
+
 func (e *c05Exec) takeImage(name string, occ int) {
 	dst := filepath.Join(e.imageDir, fmt.Sprintf("p%d-%s-%d", e.plan.ID, name, occ))
 	if err := c05CopyDir(e.dir, dst, e.seekCopy); err != nil {
@@ -372,9 +426,12 @@ func (e *c05Exec) takeImage(name string, occ int) {
 		return
 	}
 	img := &c05Image{Plan: e.plan.ID, Point: name, Occ: occ, Dir: dst, OpIndex: e.opIdx, OpKind: e.opKind,
-		Pre: append([]vfRec(nil), e.pre...), InFlight: append([]vfRec(nil), e.inflight...), HW: e.hw, Suspect: map[uint64]bool{}}
+		Pre: append([]vfRec(nil), e.pre...), InFlight: append([]vfRec(nil), e.inflight...), HW: e.memHW(), Suspect: map[uint64]bool{}}
 	for k := range e.suspect {
 		img.Suspect[k] = true
+	}
+	if e.endSlack >= 0 {
+		img.EndAlt = []int64{e.endSlack}
 	}
 	img.Required = map[int64]bool{}
 	for k := range e.required {
@@ -405,6 +462,9 @@ func (e *c05Exec) nextOffset() int64 {
 	if len(e.model) == 0 {
 		// after retention/truncation the next offset is the log's own notion
 		return e.log.NewestOffset() + 1
+	}
+	if last := e.model[len(e.model)-1].Off; e.endSlack > last {
+		return e.endSlack + 1
 	}
 	return e.model[len(e.model)-1].Off + 1
 }
@@ -511,6 +571,15 @@ func (e *c05Exec) mustSurviveClean() map[int64]bool {
 }
 
 // ---------------------------------------------------------------- operations interleaved with a cleaner pass
+
+func c05HasInt64(xs []int64, x int64) bool {
+	for _, v := range xs {
+		if v == x {
+			return true
+		}
+	}
+	return false
+}
 
 func c05Has(xs []int, x int) bool {
 	for _, v := range xs {
@@ -751,6 +820,9 @@ func (e *c05Exec) run(fail func(fp, what string)) {
 	e.failFn = fail
 	e.suspect = map[uint64]bool{}
 	e.cleanRolledBase = -1
+	e.idleEvery = e.plan.Family == "below"
+	e.lastCkpt = ""
+	e.endSlack = -1
 	mark := func(num int, before bool) {
 		if e.onOp != nil {
 			e.onOp(num, before)
@@ -779,10 +851,20 @@ func (e *c05Exec) run(fail func(fp, what string)) {
 		l.Close()
 	}()
 	for i, op := range e.plan.Ops {
+		e.sampleSlack()
+		if e.idleEvery && i > 0 {
+			e.idleImage()
+		}
 		e.opIdx, e.opKind = i, op.Kind
 		e.pre = e.model
 		e.inflight = nil
 		e.required = c05AllRequired(e.model)
+		// The HW is an INPUT of what follows (compaction's must-survive set, the
+		// position classes of truncations): the model follows the log.  On the
+		// unchanged code the two never differ (only SetHighWatermark moves it);
+		// what the in-memory HW should be after a truncation at or below it is
+		// unspecified and not judged.
+		e.hw = e.memHW()
 		switch op.Kind {
 		case "A", "M":
 			base := e.nextOffset()
@@ -818,10 +900,14 @@ func (e *c05Exec) run(fail func(fp, what string)) {
 			if lo < e.model[0].Off {
 				lo = e.model[0].Off
 			}
-			if hi <= lo {
+			below := c05BelowModes[op.Mode]
+			if hi <= lo && !below {
 				continue
 			}
 			off := lo + (hi-lo)*int64(op.Frac)/1100
+			if below {
+				off = e.belowTarget(op)
+			}
 			switch op.Mode {
 			case "segbase":
 				// the base offset of a segment (newest first when Frac is high)
@@ -860,12 +946,25 @@ func (e *c05Exec) run(fail func(fp, what string)) {
 			}
 			e.required = req
 			e.truncClass(off)
+			if below {
+				e.belowClass(op, off)
+			}
 			mark(i+1, true)
 			if err := l.Truncate(off); err != nil {
 				fail("C05:harness-truncate", fmt.Sprintf("Truncate(%d) failed in workload: %v", off, err))
 				return
 			}
 			e.model = post
+			// the log end by the log's own account, for the crash images taken
+			// inside this truncation
+			e.sampleSlack()
+			if e.endSlack >= 0 {
+				for _, im := range e.images {
+					if im.OpIndex == i && im.OpKind == "T" {
+						im.EndAlt = append(im.EndAlt, e.endSlack)
+					}
+				}
+			}
 			mark(i+1, false)
 		case "H":
 			if len(e.model) == 0 {
@@ -888,6 +987,27 @@ func (e *c05Exec) run(fail func(fp, what string)) {
 				fail("C05:harness-checkpoint", fmt.Sprintf("checkpointHW failed: %v", err))
 				return
 			}
+			e.lastCkpt = "K"
+			mark(i+1, false)
+		case "R":
+			// clean restart: Close (which checkpoints the HW) and reopen.  The
+			// instant between the two is a crash instant of its own; hook hits
+			// inside Close and inside the recovery of the reopen are others.
+			mark(i+1, true)
+			if err := l.Close(); err != nil {
+				fail("C05:harness-close", fmt.Sprintf("Close failed in workload: %v", err))
+				return
+			}
+			e.lastCkpt = "R"
+			e.onPoint("restart.afterClose") // nolint: errcheck
+			l2, err := c05Open(e.plan.opts(e.dir))
+			if err != nil {
+				fail("C05:harness-restart", fmt.Sprintf("reopening the log after a clean Close failed in workload: %v", err))
+				return
+			}
+			l = l2
+			e.log = l2
+			e.stat("clean-restarts")
 			mark(i+1, false)
 		case "E":
 			e.epoch++
@@ -941,6 +1061,10 @@ func (e *c05Exec) run(fail func(fp, what string)) {
 				e.idleImage()
 			}
 		}
+	}
+	e.sampleSlack()
+	if e.idleEvery {
+		e.idleImage()
 	}
 	e.opIdx, e.opKind = len(e.plan.Ops), "close"
 	e.pre, e.inflight, e.required = e.model, nil, c05AllRequired(e.model)
@@ -1272,7 +1396,7 @@ func c05CheckRecovered(plan c05Plan, img *c05Image, fail func(kind, what string)
 	}
 	// 4. NewestOffset / OldestOffset agree with what is readable
 	if len(recs) > 0 {
-		if got := l.NewestOffset(); got != recs[len(recs)-1].Off {
+		if got := l.NewestOffset(); got != recs[len(recs)-1].Off && !(got > recs[len(recs)-1].Off && c05HasInt64(img.EndAlt, got)) {
 			var segdesc []string
 			for _, sg := range l.Segments() {
 				segdesc = append(segdesc, fmt.Sprintf("[base=%d first=%d last=%d bytes=%d]", sg.BaseOffset, sg.FirstOffset(), sg.LastOffset(), sg.Position()))
@@ -1711,6 +1835,9 @@ func c05Plans() []c05Plan {
 		}
 	}
 	plans = append(plans, c05InterPlans(len(plans), root)...)
+	// family "below" (unit belowhw, c05_belowhw_test.go): truncations AT OR BELOW
+	// the high watermark with an HW checkpoint before them
+	plans = append(plans, c05BelowPlans(len(plans), root)...)
 	// replay / debugging: restrict to plans whose text contains C05_ONLY_PLAN
 	if only := os.Getenv("C05_ONLY_PLAN"); only != "" {
 		var sel []c05Plan
@@ -2093,14 +2220,16 @@ func TestVerifC05KillChild(t *testing.T) {
 func TestVerifC05Kill(t *testing.T) {
 	rep := kit.NewReport("C05", "kill")
 	defer rep.Write()
-	rep.SetRule("validation of the snapshot shortcut: for seeded (plan, point, occurrence) triples a child process runs the workload and SIGKILLs itself at that hit; the recovered content / HW / epoch history of its directory must equal that of the snapshot image of the same triple, and the same oracle is applied; distinct = triples")
+	rep.SetRule("validation of the snapshot shortcut: for seeded (plan, point, occurrence) triples a child process runs the workload and SIGKILLs itself at that hit; the recovered content / HW / epoch history of its directory must equal that of the snapshot image of the same triple, and the same oracle is applied; workloads: the first base plans, the first plans of the interleave family and the first of the family of truncations at or below the HW (unit belowhw; incl. the instant between the Close and the reopen of a clean restart); distinct = triples")
 	verifhook.Set(c05Dispatch)
 	defer verifhook.Set(nil)
 	// the first base workloads and the first workloads of the interleave family
 	// (operations interleaved with a cleaner pass, catch-up streams)
-	base, inter := c05FamilyPlans(""), c05FamilyPlans("inter")
+	// ... and of the family of truncations at or below the HW (incl. the crash
+	// instant between the Close and the reopen of a clean restart)
+	base, inter, below := c05FamilyPlans(""), c05FamilyPlans("inter"), c05FamilyPlans("below")
 	rng := kit.NewRNG(kit.Mix(kit.Seed(), 0xC05F))
-	nbase, ninter := kit.Scale(3, 18), kit.Scale(3, 10)
+	nbase, ninter, nbelow := kit.Scale(3, 18), kit.Scale(3, 10), kit.Scale(1, 4)
 	perPlan := kit.Scale(8, 25)
 	if nbase > len(base) {
 		nbase = len(base)
@@ -2108,7 +2237,10 @@ func TestVerifC05Kill(t *testing.T) {
 	if ninter > len(inter) {
 		ninter = len(inter)
 	}
-	plans := append(append([]c05Plan(nil), base[:nbase]...), inter[:ninter]...)
+	if nbelow > len(below) {
+		nbelow = len(below)
+	}
+	plans := append(append(append([]c05Plan(nil), base[:nbase]...), inter[:ninter]...), below[:nbelow]...)
 	nplans := len(plans)
 	self := os.Getenv("VERIF_SELF")
 	if self == "" {
@@ -2144,7 +2276,19 @@ func TestVerifC05Kill(t *testing.T) {
 		}
 		pts := kit.SortedKeys(byPoint)
 		chosen := map[*c05Image]bool{}
-		for k := 0; k < perPlan; k++ {
+		per := perPlan
+		if plan.Family == "below" {
+			// fewer children (the family's own unit judges every image); always the
+			// instant between the Close and the reopen of a clean restart, which
+			// only this family has
+			per = kit.Scale(4, 25)
+			if ims := byPoint["restart.afterClose"]; len(ims) > 0 {
+				im := ims[rng.Intn(len(ims))]
+				chosen[im] = true
+				jobs = append(jobs, job{plan, im})
+			}
+		}
+		for k := len(chosen); k < per; k++ {
 			pt := pts[(k+rng.Intn(len(pts)))%len(pts)]
 			ims := byPoint[pt]
 			im := ims[rng.Intn(len(ims))]
